@@ -57,6 +57,26 @@ func genConfig(t *rapid.T) Config {
 			}
 		}
 	}
+	// a signature collection that is under way when what the leader shared
+	// expires: one member besides the leader is there from the start, the
+	// others come one by one around the 120 blocks; the early one may be down
+	// while the data are made anew
+	if cfg.N >= 4 && Chance(t, "partialCollection?", 14) {
+		cfg.Late = nil
+		cfg.Delay = map[int]int{}
+		early := rapid.IntRange(1, cfg.N-1).Draw(t, "earlyMember")
+		by := rapid.IntRange(112, 150).Draw(t, "lateBy")
+		for i := 1; i < cfg.N; i++ {
+			if i != early {
+				// (one by one: the count may be completed by the first of them)
+				cfg.Delay[i] = by + rapid.IntRange(0, 45).Draw(t, "lateSpread")
+			}
+		}
+		if Chance(t, "earlyMemberCrashes?", 30) {
+			cfg.Crashes = append(cfg.Crashes, Crash{Member: early, AfterWrites: rapid.IntRange(1, 8).Draw(t, "earlyAfterWrites"),
+				RestartAfter: rapid.IntRange(100, 200).Draw(t, "earlyRestartAfter")})
+		}
+	}
 	nCrash := Weighted(t, "nCrash", []int{45, 30, 15, 10})
 	for i := 0; i < nCrash; i++ {
 		cr := Crash{Member: rapid.IntRange(0, cfg.N-1).Draw(t, "crashMember"), RestartAfter: rapid.IntRange(0, 40).Draw(t, "restartAfter")}
